@@ -1003,7 +1003,9 @@ func (w *sessWorld) census(when string) {
 			return
 		}
 	}
-	if w.alive(w.pc) && w.alive(w.ps) {
+	// files: when both processes are alive, or when one died after the session was established (the survivor had
+	// mapped the files and removes them when it unmaps; a creator that dies mid-handshake may leave them)
+	if (w.alive(w.pc) && w.alive(w.ps)) || w.established {
 		ents, _ := os.ReadDir(w.dir)
 		if len(ents) > 0 {
 			names := []string{}
